@@ -123,7 +123,21 @@ theorem attachConv_afr (s : St) (n c : String) : AFr NT s (attachConv s n c).1 :
       · exact AFr.refl _ _
       · exact setTag_afr_attrs (t' := { t with convs := t.convs ++ [c] }) ht rfl
 
-theorem detachConv_afr (s : St) (n c : String) : AFr NT s (detachConv s n c) := by
+theorem attrs_odF (all : Nat) (t : Tag) : Attrs (odF all t) = Attrs t := by
+  unfold odF
+  split <;> rfl
+
+theorem outputDropped_afr (s : St) (choice : Option String) : AFr NT s (outputDropped s choice) := by
+  rw [outputDropped_eq]
+  split
+  · refine AFr.trans ?_ (AFr.of_same ((invalidatedDuring_same _ _).trans (startTagging_same _ _)))
+    refine AFr.trans (b := { s with tags := s.tags.map fun p => (p.1, odF s.all p.2) }) ?_ (inherit_afr _)
+    exact map_afr s _ (fun _ t => odF s.all t) rfl (fun _ t => attrs_odF _ t)
+  · exact AFr.refl _ _
+
+-- CHANGED (dropped): `detachConv` takes the tagging choice and may run `outputDropped`
+theorem detachConv_afr (s : St) (n c : String) (choice : Option String := none) :
+    AFr NT s (detachConv s n c choice) := by
   unfold detachConv
   split
   · exact AFr.refl _ _
@@ -131,7 +145,7 @@ theorem detachConv_afr (s : St) (n c : String) : AFr NT s (detachConv s n c) := 
     have h := setTag_afr_attrs (t' := { t with convs := t.convs.filter (· != c) }) ht rfl
     simp only []
     split
-    · exact h
+    · exact AFr.trans (fun n hn => h n hn) (outputDropped_afr _ _)
     · exact h
 
 theorem muFin_afr (s : St) (name : String) (u : IdSet) : AFr (· ≠ name) s (muFin s name u) := by
@@ -264,7 +278,7 @@ theorem step_updConv_afr (s : St) (name : String) (convs : List String) (st : St
   unfold ucAttach ucDetach
   refine AFr.trans ?_ (AFr.of_same (startConverter_same _))
   refine AFr.trans ?_ (foldl_afr _ (fun s c => attachConv_afr s name c) _ _)
-  exact foldl_afr _ (fun s c => detachConv_afr s name c) _ _
+  exact foldl_afr _ (fun s c => detachConv_afr s name c st.tag) _ _
 
 theorem markTail_afr (s : St) (name : String) (a d : List Nat) (st : Started) :
     AFr (· ≠ name) s (markTail (markUpdate s name a d) st).1 :=
@@ -284,11 +298,13 @@ theorem step_markDel_afr (s : St) (name : String) (ids : List Nat) (st : Started
   all_goals first | exact AFr.refl _ _ | skip
   exact markTail_afr _ _ _ _ _
 
-theorem dtApply_afr (s : St) (name : String) (t : Tag) : AFr (· ≠ name) s (dtApply s name t) := by
+-- CHANGED (dropped): `dtApply` takes the tagging choice
+theorem dtApply_afr (s : St) (name : String) (t : Tag) (choice : Option String) :
+    AFr (· ≠ name) s (dtApply s name t choice) := by
   unfold dtApply
-  refine AFr.trans ((foldl_afr _ (fun s c => detachConv_afr s name c) t.convs s).mono fun _ _ => trivial) ?_
-  refine AFr.trans (b := { (t.convs.foldl (fun s c => detachConv s name c) s) with
-      tags := sdel (t.convs.foldl (fun s c => detachConv s name c) s).tags name }) ?_ ?_
+  refine AFr.trans ((foldl_afr _ (fun s c => detachConv_afr s name c choice) t.convs s).mono fun _ _ => trivial) ?_
+  refine AFr.trans (b := { (t.convs.foldl (fun s c => detachConv s name c choice) s) with
+      tags := sdel (t.convs.foldl (fun s c => detachConv s name c choice) s).tags name }) ?_ ?_
   · exact fun n hn => akeep_sdel_ne _ (Ne.symm hn)
   · exact foldl_afr _ (fun s r => (delRefBy_afr s r name).mono fun _ _ => trivial) _ _
 
@@ -297,7 +313,7 @@ theorem step_delTag_afr (s : St) (name : String) (st : Started) :
   rw [step_delTag_eq]
   repeat' split
   all_goals first | exact AFr.refl _ _ | skip
-  exact dtApply_afr _ _ _
+  exact dtApply_afr _ _ _ _
 
 theorem step_importPcaps_afr (s : St) (names : List String) (st : Started) :
     AFr NT s (step s (.importPcaps names) st).1 := by
@@ -505,7 +521,10 @@ theorem step_res_indep (s : St) (e : Ev) (st st' : Started) : (step s e st).2 = 
     all_goals rfl
   | updColor name color => rfl
   | updName name new => rfl
-  | updConv name convs => rfl
+  | updConv name convs =>
+    rw [step_updConv_eq, step_updConv_eq]
+    repeat' split
+    all_goals rfl
   | markAdd name ids =>
     rw [step_markAdd_eq, step_markAdd_eq]
     repeat' split
@@ -514,7 +533,10 @@ theorem step_res_indep (s : St) (e : Ev) (st st' : Started) : (step s e st).2 = 
     rw [step_markDel_eq, step_markDel_eq]
     repeat' split
     all_goals rfl
-  | delTag name => rfl
+  | delTag name =>
+    rw [step_delTag_eq, step_delTag_eq]
+    repeat' split
+    all_goals rfl
   | viewOpen k => rfl
   | viewRelease k => rfl
 
@@ -602,7 +624,11 @@ open Pk.Proofs.MgrSettle
 @[simp, c09_frame] theorem delRefBy_ngen (s : St) (a b : String) : (delRefBy s a b).ngen = s.ngen := by unfold delRefBy; frame
 @[simp, c09_frame] theorem attachConv_ngen (s : St) (n c : String) : ((attachConv s n c).1).ngen = s.ngen := by
   unfold attachConv; frame
-@[simp, c09_frame] theorem detachConv_ngen (s : St) (n c : String) : (detachConv s n c).ngen = s.ngen := by
+@[simp, c09_frame] theorem outputDropped_ngen (s : St) (ch : Option String) : (outputDropped s ch).ngen = s.ngen := by
+  unfold outputDropped; frame
+-- CHANGED (dropped): takes the tagging choice
+@[simp, c09_frame] theorem detachConv_ngen (s : St) (n c : String) (ch : Option String := none) :
+    (detachConv s n c ch).ngen = s.ngen := by
   unfold detachConv; frame
 @[simp, c09_frame] theorem markUpdate_ngen (s : St) (n : String) (a d : List Nat) : ((markUpdate s n a d).1).ngen = s.ngen :=
   markUpdate_frame (·.ngen) (fun _ _ => rfl) (fun _ _ => rfl) (fun _ _ => rfl) (fun _ _ => rfl) s n a d
